@@ -392,7 +392,7 @@ class _Renamer(ast.NodeTransformer):
 
 def _alpha(fn):
     """Alpha-normalise local names (params kept) and drop docstrings / logging calls and string constants."""
-    fn = copy.deepcopy(fn)
+    fn = util.clone(fn)
     params = {a.arg for a in fn.args.posonlyargs + fn.args.args + fn.args.kwonlyargs}
     order = {}
     for n in ast.walk(fn):
@@ -487,7 +487,7 @@ def c11_dual(R):
         R.need("min" in ms and "max" in ms, f"{cname} lacks min/max")
         full = dict(mp)
         full.update({v: k for k, v in mp.items()})
-        a = _alpha(_Renamer(full).visit(copy.deepcopy(ms["min"])))
+        a = _alpha(_Renamer(full).visit(util.clone(ms["min"])))
         b = _alpha(ms["max"])
         da, ta = _dump_body(a)
         db, tb = _dump_body(b)
